@@ -13,10 +13,20 @@ LEAN_MODULES = ["LenaModel.Props.C17"]
 LEAN_SOURCES = ["LenaModel/Model/C17.lean", "LenaModel/Props/C17.lean"]
 DRIVER = "drivers/C17.lean"
 THEOREMS = [
+    "Lena.C17.slice_run_eq_pyslice",
     "Lena.C17.slice_rejects_bad_step",
+    "Lena.C17.slice_accepts_good_step",
+    "Lena.C17.pySlice_getElem?",
+    "Lena.C17.islice_eq_pySlice",
+    "Lena.C17.runNegative_eq_pySlice",
+    "Lena.C17.fill_into_eq",
+    "Lena.C17.stopfill_only_when_done",
     "Lena.C17.reverse_spec",
     "Lena.C17.chain_spec",
     "Lena.C17.countfrom_spec",
+    "Lena.C17.chunks_are_windows",
+    "Lena.C17.windows_spec",
+    "Lena.C17.windows_short",
 ]
 TRUSTED = [
     "Lean 4.33.0 kernel; axioms limited to propext, Classical.choice, Quot.sound (audited by #print axioms on every run)",
@@ -79,6 +89,17 @@ def gen_cases(ctx):
         for n in range(0, 11):
             for cont in ("tuple", "list", "star"):
                 cases.append({"op": "chunks", "cs": cs, "n": n, "container": cont})
+    # the same scope over flows whose values are falsy / None (the code must never inspect the values)
+    extra = []
+    for c in cases:
+        if c["op"] in ("slice", "fill_into") and c.get("form", 3) == 3 and c["n"] in (0, 3, 6, 10):
+            extra.append(dict(c, vk="falsy"))
+            if c["n"] in (6,):
+                extra.append(dict(c, vk="none"))
+        elif c["op"] in ("reverse", "chunks"):
+            extra.append(dict(c, vk="falsy"))
+            extra.append(dict(c, vk="none"))
+    cases.extend(extra)
     ctx.exhaustive = True
     if ctx.tier == "thorough":
         ctx.exhaustive = False  # the random part is sampled
@@ -88,7 +109,8 @@ def gen_cases(ctx):
                 return None if rng.random() < 0.15 else rng.randint(-70, 70)
             if r < 0.7:
                 cases.append({"op": "slice", "start": ri(), "stop": ri(),
-                              "step": rng.choice([None, 1, 2, 3, 5, 7, 12]), "n": rng.randint(0, 60), "form": 3})
+                              "step": rng.choice([None, 1, 2, 3, 5, 7, 12]), "n": rng.randint(0, 60), "form": 3,
+                              "vk": rng.choice(["int", "int", "falsy", "none"])})
             elif r < 0.9:
                 a, b = ri(), ri()
                 cases.append({"op": "fill_into", "start": None if a is None else abs(a),
@@ -98,6 +120,30 @@ def gen_cases(ctx):
                 cases.append({"op": "chunks", "cs": rng.randint(1, 9), "n": rng.randint(0, 40),
                               "container": rng.choice(["tuple", "list", "star"])})
     return cases
+
+
+_FALSY = [0, None, False, "", (), 0.0, 7, None]
+
+
+def _vals(case, n=None):
+    """The flow of a case: integers 0..n-1 by default; with vk='falsy' a palette of falsy values and None
+    (elements that a sentinel-based or truthiness-based rewrite would mistake for the end of the flow);
+    with vk='none' the odd positions hold None."""
+    n = case["n"] if n is None else n
+    vk = case.get("vk", "int")
+    if vk == "int":
+        return list(range(n))
+    if vk == "none":
+        return [None if i % 2 else i for i in range(n)]
+    return [_FALSY[i % len(_FALSY)] for i in range(n)]
+
+
+def _enc(v):
+    return v if type(v) is int else f"{type(v).__name__}:{v!r}"
+
+
+def _encs(vs):
+    return [_enc(v) for v in vs]
 
 
 def _args(case):
@@ -123,17 +169,17 @@ def run_impl(case):
     import lena.flow
     op = case["op"]
     if op == "slice":
-        xs = list(range(case["n"]))
+        xs = _vals(case)
         try:
             sl = lena.flow.Slice(*_args(case))
         except Exception as e:
             return {"e": exc_name(e), "phase": "init"}
         try:
-            return {"r": list(sl.run(iter(xs)))}
+            return {"r": _encs(sl.run(iter(xs)))}
         except Exception as e:
             return {"e": exc_name(e), "phase": "run"}
     if op == "fill_into":
-        xs = list(range(case["n"]))
+        xs = _vals(case)
         try:
             sl = lena.flow.Slice(case["start"], case["stop"], case["step"])
         except Exception as e:
@@ -148,26 +194,41 @@ def run_impl(case):
                 break
             except Exception as e:
                 return {"e": exc_name(e), "phase": "fill"}
-        return {"r": st.vals, "stop": stop_at}
+        return {"r": _encs(st.vals), "stop": stop_at}
     if op == "reverse":
-        return {"r": list(lena.flow.Reverse().run(iter(range(case["n"]))))}
+        try:
+            return {"r": _encs(lena.flow.Reverse().run(iter(_vals(case))))}
+        except Exception as e:
+            return {"e": exc_name(e), "phase": "run"}
     if op == "chain":
         xss, k = [], 0
         for l in case["lens"]:
             xss.append(list(range(k, k + l)))
             k += l
-        return {"r": list(lena.flow.Chain(*[iter(x) for x in xss])())}
+        try:
+            return {"r": list(lena.flow.Chain(*[iter(x) for x in xss])())}
+        except Exception as e:
+            return {"e": exc_name(e), "phase": "run"}
     if op == "countfrom":
-        return {"r": list(itertools.islice(lena.flow.CountFrom(case["start"], case["step"])(), case["n"]))}
+        try:
+            return {"r": list(itertools.islice(lena.flow.CountFrom(case["start"], case["step"])(), case["n"]))}
+        except Exception as e:
+            return {"e": exc_name(e), "phase": "run"}
     if op == "chunks":
         cont = case["container"]
-        if cont == "tuple":
-            el = lena.flow.RunningChunkBy(case["cs"])
-        elif cont == "list":
-            el = lena.flow.RunningChunkBy(case["cs"], list, from_iterable=True)
-        else:
-            el = lena.flow.RunningChunkBy(case["cs"], lambda *a: list(a))
-        return {"r": [list(c) for c in el.run(iter(range(case["n"])))]}
+        try:
+            if cont == "tuple":
+                el = lena.flow.RunningChunkBy(case["cs"])
+            elif cont == "list":
+                el = lena.flow.RunningChunkBy(case["cs"], list, from_iterable=True)
+            else:
+                el = lena.flow.RunningChunkBy(case["cs"], lambda *a: list(a))
+        except Exception as e:
+            return {"e": exc_name(e), "phase": "init"}
+        try:
+            return {"r": [_encs(c) for c in el.run(iter(_vals(case)))]}
+        except Exception as e:
+            return {"e": exc_name(e), "phase": "run"}
     raise ValueError(op)
 
 
@@ -203,11 +264,24 @@ def model_requests(case):
     raise ValueError(op)
 
 
+def _map_model(case, m):
+    """The model runs on the positions 0..n-1; translate its answer to the values of this case's flow."""
+    if case.get("vk", "int") == "int" or "r" not in m or case["op"] not in ("slice", "fill_into", "reverse", "chunks"):
+        return m
+    vals = _vals(case)
+    def tr(r):
+        return [tr(x) for x in r] if isinstance(r, list) else _enc(vals[r])
+    return dict(m, r=tr(m["r"]))
+
+
 def compare(case, res, replies):
     op = case["op"]
     m = replies[0]
     if "err" in m:
         return f"model driver error: {m['err']}"
+    m = _map_model(case, m)
+    if "e" in res and op not in ("slice",):
+        return f"impl raised {res} vs model {m}"
     if op == "slice":
         if "e" in res or "e" in m:
             if res.get("e") != m.get("e"):
@@ -237,8 +311,8 @@ def compare(case, res, replies):
     return None
 
 
-def _windows(case):
-    xs, cs = list(range(case["n"])), case["cs"]
+def _windows(case, vals=False):
+    xs, cs = (_encs(_vals(case)) if vals else list(range(case["n"]))), case["cs"]
     return [xs[i:i + cs] for i in range(0, len(xs) - cs + 1)]
 
 
@@ -253,17 +327,16 @@ def oracle(case, res):
                 return f"Slice{_args(case)} with step {s} must raise LenaValueError at construction, got {res}"
             return None
         if "e" in res:
-            return f"Slice{_args(case)} raised {res}"
-        ref = xs[case["start"]:case["stop"]:s]
+            return f"Slice{_args(case)} raised {res} on flow {_vals(case)}"
+        ref = _encs(_vals(case)[case["start"]:case["stop"]:s])
         if res["r"] != ref:
-            return f"Slice{_args(case)}.run(range({case['n']})) = {res['r']} but xs[start:stop:step] = {ref}"
+            return f"Slice{_args(case)}.run({_vals(case)}) = {res['r']} but xs[start:stop:step] = {ref}"
         return None
     if op == "fill_into":
         if "e" in res:
             return f"fill_into raised {res}"
-        xs = list(range(case["n"]))
         a, b, s = case["start"], case["stop"], case["step"]
-        ref = xs[a:b:s]
+        ref = _encs(_vals(case)[a:b:s])
         st = res["stop"]
         # values filled before the stop signal must be the slice of the prefix fed so far, and
         # LenaStopFill only when no later index could be selected
@@ -280,8 +353,10 @@ def oracle(case, res):
             if len(sel) and sel[-1] >= st:
                 return f"LenaStopFill at index {st} although index {sel[-1]} would be selected"
         return None
+    if "e" in res:
+        return f"{op} raised {res} (case {case})"
     if op == "reverse":
-        ref = list(reversed(list(range(case["n"]))))
+        ref = _encs(reversed(_vals(case)))
         return None if res["r"] == ref else f"Reverse gives {res['r']}, reversed(list(xs)) = {ref}"
     if op == "chain":
         ref = list(itertools.chain(*_chain_xss(case)))
@@ -290,7 +365,7 @@ def oracle(case, res):
         ref = list(itertools.islice(itertools.count(case["start"], case["step"]), case["n"]))
         return None if res["r"] == ref else f"CountFrom gives {res['r']}, itertools.count = {ref}"
     if op == "chunks":
-        ref = _windows(case)
+        ref = _windows(case, vals=True)
         return None if res["r"] == ref else f"RunningChunkBy({case['cs']}) gives {res['r']}, windows = {ref}"
     raise ValueError(op)
 
